@@ -219,6 +219,12 @@ def decorate(rng, prog):
             part["custom_flags_reversed"] = True
         if part["id"] != "c" and rng.random() < 0.3:
             part["custom_flags_trailing_comma"] = True
+    ifaces = prog["parts"][1:]
+    if len(ifaces) >= 2 and rng.random() < 0.35:
+        # two interfaces whose module paths end in the same identifier (`a_ns::common`, `b_ns::common`), told apart with `as`
+        for part in ifaces[:2]:
+            part["module"] = part["module"] + "_ns::common"
+            part["as_name"] = part["variant"]
     if rng.random() < 0.4:
         k = rng.choice([1, 2, 3])
         items = []
